@@ -2,7 +2,7 @@
 import random, re, json
 from ..runner import Check
 from .. import core, gen_rv
-from ..gen_rv import T, CONFIGS, encode, valid_in, word_bytes, s_type, i_type
+from ..gen_rv import T, CONFIGS, encode, valid_in, word_bytes, s_type, i_type, u_type, j_type, b_type, IMM20, IMMJ, IMMB
 
 RV_LEVEL = ("Trace validation against an independent TLA+ transcription of the RISC-V unprivileged specification "
             "(spec/RV.tla: Decode, immediates, Exec with the tool's documented approximations): every recorded "
@@ -127,6 +127,17 @@ class C01(RVCheck):
                     addr = rng.choice(ADDRS64 if xlen == 64 else ADDRS32)
                     gs.append([self.case("i%d" % k, xlen, exts, addr, w)])
                     k += 1
+                # every value of the immediate grid of the pc-relative / upper-immediate formats (the extreme immediates
+                # are where address arithmetic overflows), at a low and a high address
+                grid = {"U": IMM20, "J": IMMJ, "B": IMMB}.get(t["fmt"])
+                if grid and exts in ("MA", ""):
+                    enc = {"U": lambda v: u_type(t["op"], 5, v), "J": lambda v: j_type(t["op"], 1, v),
+                           "B": lambda v: b_type(t["op"], t["f3"], 5, 10, v)}[t["fmt"]]
+                    for v in grid:
+                        for addr in ([0x1000, 0xFFFFF000] if xlen == 32 else [0x1000, 0x8000000000000000]) + \
+                                [rng.choice(ADDRS64 if xlen == 64 else ADDRS32)]:
+                            gs.append([self.case("i%d" % k, xlen, exts, addr, enc(v))])
+                            k += 1
                 # the same word lifted again by the same parser at other addresses (and back): the lifting of a word may
                 # depend on its address, never on what the parser lifted before
                 w = encode(t, rng, xlen)
